@@ -1482,6 +1482,22 @@ class BootstrapElectionModel(BaseElectionModel):
         )
         return to_call_mod
 
+    def _get_aggregate_dummies(self, all_units: pd.DataFrame, aggregate: list, temp_column_name: str) -> pd.DataFrame:
+        """
+        Dummy variables for each group of a multi-column aggregate. The columns are in the same order as the rows
+        of the aggregate data frames, which are sorted by the aggregate columns (sorting the joined label instead
+        differs when one key is a prefix of another, e.g. districts 1 and 10).
+        """
+        all_units[temp_column_name] = all_units[aggregate].agg("_".join, axis=1)
+        dummies = pd.get_dummies(all_units[temp_column_name])
+        ordered_labels = (
+            all_units[all_units[temp_column_name].notna()]
+            .drop_duplicates(subset=temp_column_name)
+            .sort_values(aggregate)[temp_column_name]
+            .tolist()
+        )
+        return dummies[ordered_labels]
+
     def get_aggregate_predictions(
         self,
         reporting_units: pd.DataFrame,
@@ -1505,8 +1521,7 @@ class BootstrapElectionModel(BaseElectionModel):
         # aggreagate_1 * aggregate_2 rather than aggregate_1 + aggregate_2 which is what would happen otherwise
         if len(aggregate) > 1:
             aggregate_temp_column_name = "-".join(aggregate)
-            all_units[aggregate_temp_column_name] = all_units[aggregate].agg("_".join, axis=1)
-            dummies = pd.get_dummies(all_units[aggregate_temp_column_name])
+            dummies = self._get_aggregate_dummies(all_units, aggregate, aggregate_temp_column_name)
         else:
             # since aggregate is of length zero we can grab the first element
             dummies = pd.get_dummies(all_units[aggregate[0]])
@@ -1650,8 +1665,7 @@ class BootstrapElectionModel(BaseElectionModel):
 
         if len(aggregate) > 1:
             aggregate_temp_column_name = "-".join(aggregate)
-            all_units[aggregate_temp_column_name] = all_units[aggregate].agg("_".join, axis=1)
-            dummies = pd.get_dummies(all_units[aggregate_temp_column_name])
+            dummies = self._get_aggregate_dummies(all_units, aggregate, aggregate_temp_column_name)
         else:
             # since aggregate is of length one, we can grab the first element
             dummies = pd.get_dummies(all_units[aggregate[0]])
